@@ -1332,6 +1332,7 @@ size_t ZSTDMT_initCStream_internal(
     mtctx->inBuff.prefix = kNullRange;
     mtctx->doneJobID = 0;
     mtctx->nextJobID = 0;
+    mtctx->jobReady = 0;   /* a job prepared but not posted by an aborted frame must not be posted now */
     mtctx->frameEnded = 0;
     mtctx->allJobsCompleted = 0;
     mtctx->consumed = 0;
